@@ -30,7 +30,7 @@ type Script struct {
 	NilOpts     bool     `json:"nil_opts"`
 	Required    []string `json:"required"`
 	Granted     []string `json:"granted"`
-	ExpKind     string   `json:"exp_kind"`   // zero | rel
+	ExpKind     string   `json:"exp_kind"`   // zero | rel | epoch
 	ExpRelNS    int64    `json:"exp_rel_ns"` // expiration = now + rel
 	StripMono   bool     `json:"strip_mono"`
 	SkewNS      int64    `json:"skew_ns"`
@@ -96,8 +96,10 @@ func genScript(rt *rapid.T) Script {
 	}
 	s.SkewNS = rapid.SampledFrom([]int64{0, 0, 1, 2, int64(30 * time.Second), int64(time.Hour)}).Draw(rt, "skew")
 	s.VerifyNS = rapid.SampledFrom([]int64{0, 0, 0, 1, 2, int64(time.Second), int64(30 * time.Second)}).Draw(rt, "verify_ns")
-	if rapid.IntRange(0, 5).Draw(rt, "expzero") == 0 {
+	if k := rapid.IntRange(0, 11).Draw(rt, "expzero"); k <= 1 {
 		s.ExpKind = "zero"
+	} else if k == 2 {
+		s.ExpKind = "epoch" // an expiry that is set: 1970-01-01T00:00:00Z, as time.Unix(0, 0) gives it
 	} else {
 		s.ExpKind = "rel"
 		base := rapid.SampledFrom([]int64{0, -s.SkewNS, s.SkewNS, -int64(time.Hour), int64(time.Hour), -int64(365 * 24 * time.Hour), s.VerifyNS - s.SkewNS, s.VerifyNS - s.SkewNS, s.VerifyNS}).Draw(rt, "expbase")
@@ -290,6 +292,9 @@ func contains(xs []string, x string) bool {
 func runCase(s Script) (res vt.Result) {
 	now := time.Now()
 	var exp time.Time
+	if s.ExpKind == "epoch" {
+		exp = time.Unix(0, 0)
+	}
 	if s.ExpKind == "rel" {
 		exp = now.Add(time.Duration(s.ExpRelNS))
 		if s.StripMono {
@@ -390,6 +395,9 @@ func runCase(s Script) (res vt.Result) {
 	var expiryOK bool
 	if s.ExpKind == "zero" {
 		expiryOK = allow
+	} else if s.ExpKind == "epoch" {
+		expiryOK = false // decades past, whatever the tolerance; only an unset expiry is covered by AllowMissingExpiration
+		res.Class("expiry_at_the_unix_epoch")
 	} else {
 		// unexpired within skew at the moment of the decision (after the verifier took VerifyNS):
 		// exp + skew >= now + verify  <=>  rel + skew - verify >= 0
